@@ -212,6 +212,69 @@ def part_extreme(chk, n_versions):
         shutil.rmtree(outdir, ignore_errors=True)
 
 
+def pickle_bombs():
+    """small pickles without any global whose object graph is highly shared or deeply nested: cheap to load, expensive for code that walks
+    them as trees"""
+    import pickle
+    out = {}
+    x = [1]
+    for _ in range(26):
+        x = [x, x]
+    out['shared-lists-26'] = pickle.dumps(x, protocol=2)
+    d = {1: 2}
+    for _ in range(26):
+        d = {1: d, 2: d}
+    out['shared-dicts-26'] = pickle.dumps(d, protocol=2)
+    rows = [[(i, x) for i in range(40)]]
+    out['rows-of-shared-26'] = pickle.dumps(rows, protocol=2)
+    deep = []
+    for _ in range(400):
+        deep = [deep]
+    out['nested-400'] = pickle.dumps(deep, protocol=2)
+    return out
+
+
+def part_bombs(chk, n_versions):
+    """an inserted range inside the packet stream: a crafted pickle in each unpickled method argument"""
+    from . import C18
+    rng = chk.rng
+    versions = [v for v in battlecheck.version_dirs() if v[0] == 'wows']
+    if n_versions < len(versions):
+        step = len(versions) / float(n_versions)
+        versions = [versions[min(len(versions) - 1, int(i * step + rng.random() * step))] for i in range(n_versions)]
+    bombs = pickle_bombs()
+    files, meta = [], {}
+    try:
+        for g, v in versions:
+            for meth in C18.PICKLE_METHODS:
+                name = rng.choice(sorted(bombs)) if n_versions < 40 else None
+                for bname in ([name] if name else sorted(bombs)):
+                    p = C18.hostile_battle(g, v, chk.seed, meth, payload=bombs[bname], tag='c15b-' + bname)
+                    if p:
+                        files.append(p)
+                        meta[os.path.basename(p)] = (v, meth, bname, len(bombs[bname]))
+        jobs = [(files[i:i + 4], 'lenient') for i in range(0, len(files), 4)]
+        for files_, mode, out, died in common.pmap(_batch, jobs):
+            done = {r['file'] for r in out}
+            if died:
+                culprit = next((f for f in files_ if os.path.basename(f) not in done), None)
+                v, meth, bname, size = meta.get(os.path.basename(culprit or ''), ('?', '?', '?', 0))
+                chk.report('the parser process is killed or hangs on a %d-byte crafted pickle (%s) in %s of wows %s: %s' % (size, bname, meth, v, died),
+                           {'kind': 'bomb-crash', 'version': v, 'method': meth, 'pickle': bname, 'payload': bombs.get(bname, b'').hex()}, key='pickle-graph:%s' % meth)
+            for r in out:
+                v, meth, bname, size = meta[r['file']]
+                chk.count((r['file'], mode), nontrivial=True)
+                chk.dist('bombs:%s:%s' % (bname, r['outcome']))
+                if r['outcome'] != 'result' or r.get('cpu_s', 0) > 10:
+                    chk.report('a %d-byte crafted pickle (%s) in %s of wows %s: parse ends with %s after %.1f s CPU, peak memory +%.0f MB' % (
+                        size, bname, meth, v, r['outcome'], r.get('cpu_s', 0), r.get('rss_growth_mb', 0)),
+                        {'kind': 'bomb', 'version': v, 'method': meth, 'pickle': bname, 'payload': bombs[bname].hex(), 'outcome': r}, key='pickle-graph:%s' % meth)
+    finally:
+        for p in files:
+            if os.path.exists(p):
+                os.unlink(p)
+
+
 def _zero_width(d):
     trees = xmltree.load_dir(d)
     m = common.Driver().run([xmltree.load_request('Z', trees, brief=True)])[0]
@@ -272,6 +335,7 @@ def run(chk, drv):
     part_zero_width(chk)
     part_campaign(chk, 40 if quick else 1500, 5 if quick else 10)
     part_extreme(chk, 16 if quick else 1000)
+    part_bombs(chk, 12 if quick else 1000)
     part_streams(chk, drv, 12 if quick else 300)
     chk.assumptions += ['wall time and memory are measured, not proved; zlib, pickle and json costs are external']
 
